@@ -631,3 +631,16 @@ pub fn c20_process_part(ctx: &Ctx, scanned: &AtomicU64) -> Result<u64, String> {
     }
     Ok(runs)
 }
+
+/// After a server died with "Address already in use": was that an external collision (somebody
+/// else holds one of our ports, or the UDP bind of `main` itself failed) rather than the subject's
+/// own doing? Used to retry with fresh ports instead of reporting a verdict.
+pub fn external_port_collision(stderr: &str, ports: &[u16]) -> bool {
+    if !stderr.contains("Address already in use") && !stderr.contains("AddrInUse") {
+        return false;
+    }
+    if stderr.contains("thread 'main'") && stderr.contains("AddrInUse") && !stderr.contains("PoisonError") {
+        return true;
+    }
+    ports.iter().any(|&p| UdpSocket::bind(("127.0.0.1", p)).is_err() || std::net::TcpListener::bind(("127.0.0.1", p)).is_err())
+}
